@@ -312,4 +312,135 @@ theorem after_drop (src : Src) (p r : Nat) : src.after p r = (src.drop p).after 
   | fin xs tail => cases tail <;> simp [Src.after, Src.drop]
   | inf f => simp [Src.after, Src.drop]
 
+/-! ### checker form: a pipeline started at position `p` against the composition over `xs.drop p` -/
+
+theorem checkTake_from (kinds : List Kind) (xs : List V) (tail : Option Err) (fuel k p : Nat)
+    (h : (runTakeFrom kinds (.fin xs tail) fuel k p).fin ≠ .oof) :
+    checkTake kinds (.fin (xs.drop p) tail) k
+      ⟨(runTakeFrom kinds (.fin xs tail) fuel k p).items, (runTakeFrom kinds (.fin xs tail) fuel k p).fin,
+       (runTakeFrom kinds (.fin xs tail) fuel k p).pulls - p⟩ = true := by
+  rw [runTakeFrom_drop] at h ⊢
+  simp only [RunOut.shift, Nat.add_sub_cancel_left] at h ⊢
+  exact checkTake_of_spec kinds (xs.drop p) tail k _ h (runTake_spec _ fuel kinds k h)
+
+theorem checkAll_from (kinds : List Kind) (xs : List V) (tail : Option Err) (fuel p : Nat)
+    (h : (runAllFrom kinds (.fin xs tail) fuel p).fin ≠ .oof) :
+    checkAll kinds (.fin (xs.drop p) tail)
+      ⟨(runAllFrom kinds (.fin xs tail) fuel p).items, (runAllFrom kinds (.fin xs tail) fuel p).fin,
+       (runAllFrom kinds (.fin xs tail) fuel p).pulls - p⟩ = true := by
+  rw [runAllFrom_drop] at h ⊢
+  simp only [RunOut.shift, Nat.add_sub_cancel_left] at h ⊢
+  exact checkAll_of_spec kinds (xs.drop p) tail _ (runAll_spec _ fuel kinds h)
+
+theorem checkFirst_from (kinds : List Kind) (xs : List V) (tail : Option Err) (fuel : Nat) (key : Fn) (p : Nat)
+    (h : match (runFirstFrom kinds (.fin xs tail) fuel key p).1 with | .oof => False | _ => True) :
+    checkFirst kinds (.fin (xs.drop p) tail) key (firstObsOf (runFirstFrom kinds (.fin xs tail) fuel key p).1)
+      ((runFirstFrom kinds (.fin xs tail) fuel key p).2 - p) = true := by
+  obtain ⟨h1, h2⟩ := runFirstFrom_drop kinds (.fin xs tail) fuel key p
+  change firstObsOf _ = firstObsOf (runFirst kinds (.fin (xs.drop p) tail) fuel key).1 at h1
+  change _ = p + (runFirst kinds (.fin (xs.drop p) tail) fuel key).2 at h2
+  have h' : match (runFirst kinds (.fin (xs.drop p) tail) fuel key).1 with | .oof => False | _ => True := by
+    generalize (runFirst kinds (.fin (xs.drop p) tail) fuel key).1 = b at h1
+    generalize (runFirstFrom kinds (.fin xs tail) fuel key p).1 = a at h h1
+    cases a <;> cases b <;> first | trivial | exact h | (simp [firstObsOf] at h1)
+  rw [h1, h2, Nat.add_sub_cancel_left]
+  exact checkFirst_of_spec kinds (xs.drop p) tail key _ _ (runFirst_spec _ fuel kinds key h')
+
+/-! ### the step checker on the model's steps, when every step starts a fresh iterator -/
+
+def Mode.isFresh : Mode → Bool
+  | .take _ => false
+  | _ => true
+
+def StepOut.isOof : StepOut → Bool
+  | .run o => (match o.fin with | .oof => true | _ => false)
+  | .first o _ => (match o with | .oof => true | _ => false)
+
+theorem checkSteps_fresh (fuel : Nat) (xs : List V) (tail : Option Err) (pipes : List (List Kind)) :
+    ∀ (steps : List Step) (pos : Nat) (live : List (Option (List StageSt))) (mem : List Resumed),
+      (∀ st ∈ steps, st.mode.isFresh = true) →
+      (∀ o ∈ modelSteps fuel (.fin xs tail) pipes steps pos live, o.isOof = false) →
+      checkSteps xs tail pipes (steps.take (modelSteps fuel (.fin xs tail) pipes steps pos live).length)
+        ((modelSteps fuel (.fin xs tail) pipes steps pos live).map StepOut.obs) pos mem = true := by
+  intro steps
+  induction steps with
+  | nil => intro pos live mem _ _; simp [modelSteps, checkSteps]
+  | cons st rest ih =>
+    intro pos live mem hfresh hoof
+    have hrest : ∀ s ∈ rest, s.mode.isFresh = true := fun s hs => hfresh s (List.mem_cons_of_mem _ hs)
+    have hst := hfresh st (List.mem_cons_self ..)
+    rcases st with ⟨pi, mode⟩
+    cases mode with
+    | take k => simp [Mode.isFresh] at hst
+    | all =>
+      simp only [modelSteps] at hoof ⊢
+      generalize hk : pipes.getD pi [] = kinds at hoof ⊢
+      have hk' : pipes[pi]?.getD [] = kinds := by simpa using hk
+      have hle : pos ≤ (runAllFrom kinds (.fin xs tail) fuel pos).pulls := by
+        rw [runAllFrom_drop]; exact Nat.le_add_right _ _
+      have hno : (runAllFrom kinds (.fin xs tail) fuel pos).fin ≠ .oof := by
+        intro hc
+        exact absurd (hoof _ (List.mem_cons_self ..)) (by simp [StepOut.isOof, hc])
+      have hhere := checkAll_from kinds xs tail fuel pos hno
+      generalize hout : runAllFrom kinds (.fin xs tail) fuel pos = out at hoof hle hno hhere ⊢
+      rcases out with ⟨items, fin, pulls⟩
+      simp only at hle hno hhere
+      cases fin with
+      | oof => exact absurd rfl hno
+      | raised e =>
+        simp [StepOut.ends, checkSteps, StepOut.obs, StepObs.pulls, StepObs.raised, hk', hhere, Nat.not_lt.mpr hle]
+      | gotK =>
+        have hoof' : ∀ o ∈ modelSteps fuel (.fin xs tail) pipes rest pulls live, o.isOof = false := by
+          intro o ho
+          apply hoof
+          simp [StepOut.ends, StepOut.pulls, ho]
+        have := ih pulls live mem hrest hoof'
+        simp [StepOut.ends, StepOut.pulls, checkSteps, StepOut.obs, StepObs.pulls, StepObs.raised, hk', hhere,
+          Nat.not_lt.mpr hle, this]
+      | exhausted =>
+        have hoof' : ∀ o ∈ modelSteps fuel (.fin xs tail) pipes rest pulls live, o.isOof = false := by
+          intro o ho
+          apply hoof
+          simp [StepOut.ends, StepOut.pulls, ho]
+        have := ih pulls live mem hrest hoof'
+        simp [StepOut.ends, StepOut.pulls, checkSteps, StepOut.obs, StepObs.pulls, StepObs.raised, hk', hhere,
+          Nat.not_lt.mpr hle, this]
+    | first key =>
+      simp only [modelSteps] at hoof ⊢
+      generalize hk : pipes.getD pi [] = kinds at hoof ⊢
+      have hk' : pipes[pi]?.getD [] = kinds := by simpa using hk
+      have hle : pos ≤ (runFirstFrom kinds (.fin xs tail) fuel key pos).2 := by
+        rw [(runFirstFrom_drop _ _ _ _ _).2]; exact Nat.le_add_right _ _
+      have hno : match (runFirstFrom kinds (.fin xs tail) fuel key pos).1 with | .oof => False | _ => True := by
+        have := hoof _ (List.mem_cons_self ..)
+        revert this
+        cases (runFirstFrom kinds (.fin xs tail) fuel key pos).1 <;> simp [StepOut.isOof]
+      have hhere := checkFirst_from kinds xs tail fuel key pos hno
+      generalize hout : runFirstFrom kinds (.fin xs tail) fuel key pos = out at hoof hle hno hhere ⊢
+      rcases out with ⟨fo, pulls⟩
+      simp only at hle hno hhere
+      cases fo with
+      | oof => exact absurd hno id
+      | raised e =>
+        simp [StepOut.ends, checkSteps, StepOut.obs, StepObs.pulls, StepObs.raised, firstObsOf, hk', Nat.not_lt.mpr hle]
+        simpa [firstObsOf] using hhere
+      | found v =>
+        have hoof' : ∀ o ∈ modelSteps fuel (.fin xs tail) pipes rest pulls live, o.isOof = false := by
+          intro o ho
+          apply hoof
+          simp [StepOut.ends, StepOut.pulls, ho]
+        have := ih pulls live mem hrest hoof'
+        simp [StepOut.ends, StepOut.pulls, checkSteps, StepOut.obs, StepObs.pulls, StepObs.raised, firstObsOf,
+          hk', Nat.not_lt.mpr hle, this]
+        simpa [firstObsOf] using hhere
+      | default =>
+        have hoof' : ∀ o ∈ modelSteps fuel (.fin xs tail) pipes rest pulls live, o.isOof = false := by
+          intro o ho
+          apply hoof
+          simp [StepOut.ends, StepOut.pulls, ho]
+        have := ih pulls live mem hrest hoof'
+        simp [StepOut.ends, StepOut.pulls, checkSteps, StepOut.obs, StepObs.pulls, StepObs.raised, firstObsOf,
+          hk', Nat.not_lt.mpr hle, this]
+        simpa [firstObsOf] using hhere
+
 end Glom.C17
